@@ -49,6 +49,15 @@ def base_surface(draw, sid, allow_macro=True, focus=None):
         kind = draw(st.sampled_from(AXIAL_KINDS))
         k, p, lab = draw(gen.elementary_params(kind))
         return md.surf(sid, k, p), ['kind:' + kind] + lab
+    if focus == 'special':
+        # kinds with a code path of their own under a transformation
+        kind = draw(st.sampled_from(['sq', 'sq', 'gq', 'kx', 'k/y', 'tz', 'x',
+                                     'p3']))
+        k, p, lab = draw(gen.elementary_params(kind))
+        if 'sq:positive-at-centre' in lab:
+            p[6] = -abs(p[6])
+            lab = [q for q in lab if q != 'sq:positive-at-centre']
+        return md.surf(sid, k, p), ['kind:' + kind] + lab
     if allow_macro and draw(st.integers(0, 3)) == 0:
         kind = draw(st.sampled_from(gen.MACROS))
         k, p, lab = draw(gen.macro_params(kind))
